@@ -44,6 +44,17 @@ Fixpoint dec (pend : list Z) (need : nat) (l : list Z) {struct l} : list Z :=
 
 Definition utf8_decode_ignore (l : list Z) : list Z := dec [] 0 l.
 
+(* str.encode("utf-8", "backslashreplace"): a code point that UTF-8 cannot encode (in a Python str: a lone surrogate
+   U+D800..U+DFFF) is replaced by the six ASCII characters \udXXX (lower-case hex); `escape` is that replacement on
+   the text, so that the encoded form is utf8 (escape t) *)
+Definition hexdigit (d : Z) : Z := if d <? 10 then 48 + d else 87 + d.
+
+Definition esc1 (c : Z) : list Z :=
+  if scalarb c then [c]
+  else [92; 117; hexdigit ((c / 4096) mod 16); hexdigit ((c / 256) mod 16); hexdigit ((c / 16) mod 16); hexdigit (c mod 16)].
+
+Definition escape (t : list Z) : list Z := flat_map esc1 t.
+
 (* the longest prefix of whole characters whose encoding fits in n bytes *)
 Fixpoint take_fit (n : nat) (cps : list Z) : list Z :=
   match cps with
